@@ -69,6 +69,8 @@ func main() {
 		runC20(*out, *seed, *tier)
 	case "C16":
 		runC16(*out, *seed, *tier)
+	case "C19":
+		runC19(*out, *seed, *tier)
 	case "C04":
 		runC04(*out, *seed, *tier)
 	default:
